@@ -296,36 +296,52 @@ theorem checkCapability_cache_free {st : St} (hr : Reachable st) (h cap : Str) (
 (`IrcUser.checkPassword`), a parameter.  The ghost log records every `identify` whose password
 test succeeded. -/
 
-/-- the states the bot reaches through the User plugin from a database without accounts: every
+/-- the states the bot reaches from a database without accounts through commands of the User
+plugin and NICK messages, with `supybot.followIdentificationThroughNickChanges` on or off: every
 command is processed as the live bot does (`pstepA`: the sender is remembered, the bot's own
-lookups of the sender run before and after, for any numbers of them) -/
+lookups of the sender run before and after, for any numbers of them), every NICK message as
+`Irc.doNick` and `IrcState.doNick` do (`nickStep`) -/
 def PReachable (pwOk : Str → Str → Bool) (pst : PSt) : Prop :=
-  ∃ (db : Db) (amb : Ambient) (cs : List Cmd), db.users = [] ∧ pst = prunA amb pwOk { st := { db := db } } cs
+  ∃ (db : Db) (amb : Ambient) (follow : Bool) (evs : List Ev),
+    db.users = [] ∧ pst = erun amb pwOk { st := { db := db }, follow := follow } evs
 
 theorem preachable_pinv {pwOk : Str → Str → Bool} {pst : PSt} (hr : PReachable pwOk pst) :
     PInv pwOk pst := by
-  obtain ⟨db, amb, cs, hdb, e⟩ := hr
-  rw [e]; exact prunA_pinv amb (pinit pwOk db hdb) cs
+  obtain ⟨db, amb, follow, evs, hdb, e⟩ := hr
+  rw [e]; exact erun_pinv amb (pinit pwOk db hdb follow) evs
 
-/-- **No dictionary operation but `identify` creates a login** (`step_auth`, Lemmas) and **the
-plugin runs `identify` only for `identify <name> <password>` from that exact sender after the
-password test** (`guard_identify`).  Hence: in every reachable state, every login entry `(t, h)`
-of every account was created by an `identify` command sent from exactly `h` at time `t` with a
-password that the account's password test accepted. -/
+/-- **No dictionary operation but `identify` and `followNick` writes a login** (`step_auth`),
+**the plugin runs `identify` only for `identify <name> <password>` from that exact sender after
+the password test** (`guard_identify`) **and never `followNick`** (`guard_not_follow`), **and
+`Irc.doNick` moves a login only from the NICK message's own sender to that sender's new
+hostmask** (`nickStep_pinv`).  Hence: in every reachable state, every login entry `(t, h)` of
+every account goes back to an `identify` command sent at time `t` from `l.origin` with a password
+that the account's password test accepted, where `h` is `l.origin` itself — or, when the bot is
+configured to follow nick changes, is reached from `l.origin` by NICK messages each sent by
+exactly the hostmask reached so far (`Follows`). -/
 theorem auth_backed_by_password {pwOk : Str → Str → Bool} {pst : PSt} (hr : PReachable pwOk pst) :
     ∀ u ∈ pst.st.db.users, ∀ e ∈ u.auth,
       ∃ l ∈ pst.log, l.uid = u.id ∧ l.t = e.1 ∧ l.host = e.2 ∧
-        ∃ stored, pst.pws.lookup u.id = some stored ∧ pwOk stored l.pw = true := by
+        (∃ stored, pst.pws.lookup u.id = some stored ∧ pwOk stored l.pw = true) ∧
+        Follows pst.events l.origin l.host ∧ (pst.follow = false → l.host = l.origin) := by
   have hp := preachable_pinv hr
   intro u hu e he
   obtain ⟨l, hl, h1, h2, h3⟩ := hp.backed u hu e he
   obtain ⟨s, hs, hok⟩ := hp.logOK l hl
-  exact ⟨l, hl, h1, h2, h3, s, h1 ▸ hs, hok⟩
+  exact ⟨l, hl, h1, h2, h3, ⟨s, h1 ▸ hs, hok⟩, hp.linked l hl⟩
+
+/-- every NICK message that moved a login came from a user hostmask and changed only the nick:
+the new hostmask is the new nick followed by the sender's own `!user@host` -/
+theorem followed_nick_only {pwOk : Str → Str → Bool} {pst : PSt} (hr : PReachable pwOk pst) :
+    ∀ e ∈ pst.events, isUserHostmask e.1 = true ∧ ∃ nn, e.2 = newHost e.1 nn :=
+  (preachable_pinv hr).events
 
 /-- **Recognition, complete statement.**  In every state reachable through the User plugin, when
 `getUserId` (caches and all) resolves a user hostmask `s` to an id, that id is a stored account
-and either one of its registered patterns matches `s` (IRC glob and case rules), or the sender
-identified WITH THE ACCOUNT'S PASSWORD from exactly `s`, and that login has not timed out. -/
+and either one of its registered patterns matches `s` (IRC glob and case rules), or somebody
+identified WITH THE ACCOUNT'S PASSWORD from `l.origin` and that login has not timed out, where
+`l.origin` is exactly `s` — or, only when the bot follows nick changes, `s` is what the server's
+NICK messages turned `l.origin` into. -/
 theorem recognised_by_mask_or_password {pwOk : Str → Str → Bool} {pst : PSt}
     (hr : PReachable pwOk pst) (s : Str) (id : Nat) (hs : isUserHostmask s = true)
     (h : (getUserId pst.st s).2 = .ok id) :
@@ -333,7 +349,8 @@ theorem recognised_by_mask_or_password {pwOk : Str → Str → Bool} {pst : PSt}
       ((∃ p ∈ u.hostmasks, glob p s = true) ∨
        (∃ l ∈ pst.log, l.uid = id ∧ l.host = s ∧
           authLive pst.st.db.timeout pst.st.now (l.t, s) = true ∧
-          ∃ stored, pst.pws.lookup id = some stored ∧ pwOk stored l.pw = true)) := by
+          (∃ stored, pst.pws.lookup id = some stored ∧ pwOk stored l.pw = true) ∧
+          Follows pst.events l.origin s ∧ (pst.follow = false → l.origin = s))) := by
   have hp := preachable_pinv hr
   have ha := getUserId_agrees hp.inv.recs hp.inv.cache s
   rw [h] at ha
@@ -348,8 +365,9 @@ theorem recognised_by_mask_or_password {pwOk : Str → Str → Bool} {pst : PSt}
     rcases matchesUser_of_check hs h2 with hpat | ⟨e, he, hlive, hes⟩
     · exact Or.inl hpat
     · right
-      obtain ⟨l, hl', h3, h4, h5, stored, h6, h7⟩ := auth_backed_by_password hr u h1 e he
-      refine ⟨l, hl', h3.trans ha, h5.trans hes, ?_, stored, ha ▸ h6, h7⟩
+      obtain ⟨l, hl', h3, h4, h5, ⟨stored, h6, h7⟩, h8, h9⟩ := auth_backed_by_password hr u h1 e he
+      have hhs : l.host = s := h5.trans hes
+      refine ⟨l, hl', h3.trans ha, hhs, ?_, ⟨stored, ha ▸ h6, h7⟩, hhs ▸ h8, fun hf => (h9 hf).symm.trans hhs⟩
       rw [h4, ← hes]; exact hlive
   | missing => rw [hl] at ha; cases ha
   | duplicate => rw [hl] at ha; cases ha
@@ -387,6 +405,25 @@ example :
       [.register A alice pw, .hostAdd A (some alice) broad pw, .identify M alice ['x'],
        .hostRemove A (some alice) broad pw]
     (pstep (fun s a => s == a) pst (.whoami M)).2 = .stranger ∧ pst.log = [] := by
+  decide
+
+/-- non-vacuity for NICK following: alice identifies from `na!u@h.a` and changes her nick to
+`nb`; with the option on the login moves to `nb!u@h.a` (and the log says where the password came
+from), with the option off it stays where it was -/
+example :
+    let A : Str := ['n', 'a', '!', 'u', '@', 'h', '.', 'a']
+    let B : Str := ['n', 'b', '!', 'u', '@', 'h', '.', 'a']
+    let alice : Str := ['a', 'l', 'i', 'c', 'e']
+    let pw : Str := ['p', 'w', '1']
+    let evs : List Ev := [.cmd (.register A alice pw), .cmd (.hostRemove A none A []),
+      .cmd (.identify A alice pw), .nick A ['n', 'b']]
+    let on := erun {} (fun s a => s == a) { st := { db := Db.initial }, follow := true } evs
+    let off := erun {} (fun s a => s == a) { st := { db := Db.initial } } evs
+    (pstep (fun s a => s == a) on (.whoami B)).2 = .iam alice ∧
+    (pstep (fun s a => s == a) on (.whoami A)).2 = .stranger ∧
+    on.log.map (fun l => (l.origin, l.host)) = [(A, A), (A, B)] ∧
+    (pstep (fun s a => s == a) off (.whoami B)).2 = .stranger ∧
+    (pstep (fun s a => s == a) off (.whoami A)).2 = .iam alice := by
   decide
 
 end C04
